@@ -267,7 +267,7 @@ class CallsMixin(ExecBase):
             st.assume(z3.BoolVal(False))
             return VNone
         try:
-            m = merge_states(rets)
+            m = merge_states(rets, strict_log=bool(self.opts.get("track_calls")))
         except MergeFail as e:
             self.oos(f"inlined callee {fref.qual}: exits cannot be merged ({e})", node)
         if g is not None and len(rets) >= 1:
@@ -277,7 +277,7 @@ class CallsMixin(ExecBase):
                 alt.vars = dict(m.vars)
                 alt.assume(z3.Not(g))
                 m.assume(g)
-                m = merge_states([m, alt])
+                m = merge_states([m, alt], strict_log=bool(self.opts.get("track_calls")))
             except MergeFail as e:
                 self.oos(f"guarded inline: {e}", node)
         ret = m.vars.get("__ret", VNone)
@@ -372,6 +372,13 @@ class CallsMixin(ExecBase):
         """Unknown callee: fresh result, may raise an exception of unknown class, assumed not to mutate
         its arguments or tracked state (assumption recorded; frame scan backs it for tracked fields)."""
         short = name.split(":")[-1]
+        alias = self.opts.get("callee_alias", {}).get(name) or self.opts.get("callee_alias", {}).get(short)
+        if alias is not None and lookup(alias) is not None:
+            # a callback parameter that is, at every call site of this function, an instance of a contracted function
+            mod_, cls_, fn_ = source.find_function(alias)
+            bound = self.bind_params(fn_, list(args), kwargs, st, node, mod_)
+            self.assumptions.add(f"callback {name} is an instance of {alias} (checked syntactically at the call sites of this function)")
+            return self.apply_contract(lookup(alias), bound, st, node, alias)
         pure = self.opts.get("pure", ())
         nothrow = self.opts.get("nothrow_calls", ())
         is_pure = name in pure or short in pure or short.split(".")[-1] in pure
@@ -407,7 +414,8 @@ class CallsMixin(ExecBase):
             new_ = Val("l", z3.Concat(cur.e, z3.Unit(ctor("d")(rec))))
             g_ = self.guard_cond()
             st.ghost[gname] = ite_val(g_, new_, cur) if g_ is not None else new_
-        dep = self.opts.get("dependency_post", {}).get(name)
+        dps = self.opts.get("dependency_post", {})
+        dep = dps.get(name) or dps.get(short) or dps.get(short.split(".")[-1])
         if dep is not None:
             from .contracts import Clause
             self.assume(st, self.eval_clause(Clause("dep_" + name, dep, "ensures"), {}, st, None, {"result": res}))
@@ -429,6 +437,9 @@ class CallsMixin(ExecBase):
             cs[key] = sum(1 for k_ in cs if k_[0] == qual)
         site = f"{getattr(self, 'fn_site', self.fn_qual)}->{qual.split(':')[-1]}#{cs[key]}"
         for cl in c.requires_:
+            if getattr(cl, "typing", False):
+                self.assumptions.add(f"call of {qual}: parameter annotations trusted ({cl.name})")
+                continue
             goal = self.eval_clause(cl, bound, st, None, {})
             g = self.guard_cond()
             pc = list(st.pc) + ([g] if g is not None else [])
@@ -642,6 +653,14 @@ class CallsMixin(ExecBase):
         if m is not None:
             return m(args, kwargs, st, node)
         return self.opaque_call(dotted, args, kwargs, st, node)
+
+    def x_os_environ_get(self, args, kwargs, st, node):
+        """os.environ.get(name, default): the environment is an unknown but fixed map (uninterpreted env.set / env.val)."""
+        k = self.need(self.as_val(args[0], st, node), "s", st, node)
+        dflt = self.as_val(args[1], st, node) if len(args) > 1 else VNone
+        is_set = z3.Function("env.set", StrS, BoolS)(k)
+        val = z3.Function("env.val", StrS, StrS)(k)
+        return ite_val(is_set, VStr(val), dflt)
 
     def const_method(self, recv: PyConst, name, args, kwargs, st, node):
         obj = recv.obj
@@ -948,11 +967,14 @@ class CallsMixin(ExecBase):
             self.may_raise(st, z3.Not(ok), Exc("ValueError", origin="int()"), node)
             return VInt(res)
         ok = fresh("int_ok", BoolS)
-        self.may_raise(st, z3.Not(ok), Exc(None, origin="int()"), node)
         if v.tag == "any":
             res = fresh("int_res", IntS)
-            st.assume(z3.Implies(recog("i")(v.e), res == acc("i")(v.e)))
+            st.assume(z3.Implies(recog("i")(v.e), z3.And(ok, res == acc("i")(v.e))))
+            sv_ = acc("s")(v.e)
+            st.assume(z3.Implies(z3.And(recog("s")(v.e), z3.InRe(sv_, z3.Plus(z3.Range("0", "9")))), z3.And(ok, res == z3.StrToInt(sv_))))
+            self.may_raise(st, z3.Not(ok), Exc(None, origin="int()"), node)
             return VInt(res)
+        self.may_raise(st, z3.Not(ok), Exc(None, origin="int()"), node)
         return VInt(fresh("int_res", IntS))
 
     def b_bool(self, args, kwargs, st, node):
@@ -1002,6 +1024,8 @@ class CallsMixin(ExecBase):
         """Insertion-ordered key sequence of a dict: abstract Seq with  distinct ∧ (k ∈ ks ⇔ k present)."""
         f = z3.Function("py.keys", DictS, ListS)
         ks = f(d.e)
+        if self.opts.get("abstract_comprehensions"):
+            return ks
         i, j = z3.Const("i!ks", IntS), z3.Const("j!ks", IntS)
         k = z3.Const("k!ks", StrS)
         n = z3.Length(ks)
@@ -1013,6 +1037,8 @@ class CallsMixin(ExecBase):
     def set_seq(self, s: Val, st, ordered=False):
         f = z3.Function("py.sorted_set" if ordered else "py.iter_set", SetS, ListS)
         ks = f(s.e)
+        if self.opts.get("abstract_comprehensions"):
+            return ks
         i, j = z3.Const("i!ss", IntS), z3.Const("j!ss", IntS)
         k = z3.Const("k!ss", StrS)
         n = z3.Length(ks)
@@ -1061,6 +1087,8 @@ class CallsMixin(ExecBase):
         if v.tag == "l":
             f = z3.Function("py.sorted", ListS, ListS)
             r = f(v.e)
+            if self.opts.get("abstract_comprehensions"):
+                return self.mk_list(st, Val("l", r))
             x = z3.Const("x!srt", Any)
             st.assume(z3.Length(r) == z3.Length(v.e))
             st.assume(z3.ForAll([x], z3.Contains(r, z3.Unit(x)) == z3.Contains(v.e, z3.Unit(x))))
@@ -1072,6 +1100,8 @@ class CallsMixin(ExecBase):
         if v.tag != "l":
             self.oos("sorted(key=) of non-list", node)
         r = fresh("sorted_key", ListS)
+        if self.opts.get("abstract_comprehensions"):
+            return self.mk_list(st, Val("l", r))
         x = z3.Const("x!srt", Any)
         st.assume(z3.Length(r) == z3.Length(v.e))
         st.assume(z3.ForAll([x], z3.Contains(r, z3.Unit(x)) == z3.Contains(v.e, z3.Unit(x))))
